@@ -1,12 +1,21 @@
 #!/bin/sh
 # MANIFEST.setup_cmd: build the framework from files on disk only (offline).
-set -e
+# Every ./check rebuilds what it needs itself; this only warms the caches, so a property whose files
+# do not build must not stop the others.
 cd "$(dirname "$0")"
 export GOFLAGS=-mod=mod GOPROXY=off
 mkdir -p bin gen evidence replays
-(cd extract && (GOTOOLCHAIN=local go build -o ../bin/extract . || go build -o ../bin/extract .))
-./bin/extract -repo "${VERIF_REPO:-/repo}" -lean lean/PkVerif/Gen/Facts.lean -json gen/facts.json
-(cd lean && lake build PkVerif $(ls PkVerif/Props/*.lean | sed "s/\.lean$//; s/\//./g") $(ls Driver/*.lean | sed "s/.*\/\(C[0-9]*\).lean/pkmodel-\L\1/"))
-cp "${VERIF_REPO:-/repo}/go.sum" harness/go.sum
-(cd harness && for d in cmd/pkh-*; do env -u GOTOOLCHAIN -u GOSUMDB go build -tags verif -o ../bin/$(basename $d) ./$d; done)
-echo "setup ok"
+REPO="${VERIF_REPO:-/repo}"
+(cd extract && (GOTOOLCHAIN=local go build -o ../bin/extract . 2>/dev/null || go build -o ../bin/extract .)) || echo "setup: extractor does not build"
+./bin/extract -repo "$REPO" -lean lean/PkVerif/Gen/Facts.lean -json gen/facts.json || echo "setup: extractor reported missing declarations"
+cp "$REPO/go.sum" harness/go.sum
+fail=0
+(cd lean && lake build PkVerif) || fail=1
+for f in lean/PkVerif/Props/C*.lean; do
+  id=$(basename "$f" .lean)
+  lc=$(echo "$id" | tr 'A-Z' 'a-z')
+  (cd lean && lake build "PkVerif.Props.$id" "pkmodel-$lc" >/dev/null 2>&1) || { echo "setup: $id (Lean) does not build"; fail=1; }
+  (cd harness && env -u GOTOOLCHAIN -u GOSUMDB go build -tags verif -o "../bin/pkh-$lc" "./cmd/pkh-$lc" >/dev/null 2>&1) || { echo "setup: $id (harness) does not build"; fail=1; }
+done
+echo "setup done (failures: $fail)"
+exit 0
